@@ -350,11 +350,50 @@ def _mask_insertion(ctx, rule):
     return c03.r3_mask_insertion(ctx, rule)
 
 
+def r13_loaded_lists_unfiltered(ctx, rule):
+    """load_grammar hands back the grammar and the base-structure list exactly as the loaders filled them: each is bound once
+    (to the empty container the loaders fill) and load_grammar itself neither removes nor re-binds.  The only filter the tool
+    promises is --skip_brute, inside _load_base_structures where the probabilities are rescaled accordingly.  (Seed C17-i filtered
+    'malformed' structures after loading: the length-less labels E and W of Prince/grammar.txt were dropped, so PRINCE-LING never
+    emitted e-mail providers / hosts and every later word moved up.)"""
+    from .common import _MUTATORS
+    q = 'lib_guesser/grammar_io.py::load_grammar'
+    fn = ctx.fn(q)
+    stores = stores_in(fn)
+    rets = [r for r in walk_local(fn) if isinstance(r, ast.Return) and isinstance(r.value, ast.Tuple)]
+    if not ctx.floor(rule, q, len(rets), 1, 'tuple returns of load_grammar'):
+        return
+    names = [e.id for e in rets[0].value.elts if isinstance(e, ast.Name)]
+    if len(names) != len(rets[0].value.elts):
+        ctx.unk(rule, q, 'load_grammar returns expressions, not the loaded containers: %s' % U(rets[0].value)[:80])
+        return
+    bad = False
+    for nm in names:
+        sts = stores.get(nm, [])
+        if len(sts) != 1:
+            bad = True
+            extra = sts[-1][0] if sts else fn
+            ctx.bad(rule, q, '%s bound %d times in load_grammar: %s' % (nm, len(sts), U(extra)[:70]),
+                    'what the loaders read from the ruleset must reach the grammar unfiltered: every structure / terminal of the files '
+                    'belongs to the model (Prince/grammar.txt legitimately holds the length-less labels E and W)', None, extra)
+            continue
+        for x in walk_local(fn):
+            if isinstance(x, ast.Call) and isinstance(x.func, ast.Attribute) and x.func.attr in _MUTATORS - {'append', 'extend', 'update', 'setdefault', 'add'} \
+                    and isinstance(x.func.value, ast.Name) and x.func.value.id == nm:
+                bad = True
+                ctx.bad(rule, q, '%s altered after loading: %s' % (nm, U(x)[:60]), 'what the loaders read must reach the grammar unfiltered', None, x)
+            if isinstance(x, ast.Delete) and any(nm in U(t) for t in x.targets):
+                bad = True
+                ctx.bad(rule, q, '%s altered after loading: %s' % (nm, U(x)[:60]), 'what the loaders read must reach the grammar unfiltered', None, x)
+    if not bad:
+        ctx.ok(rule, q, 'load_grammar returns %s, each bound once and only filled by the loaders' % names)
+
+
 def rules(tier):
     return [('C17.R1', r1_size_bound), ('C17.R2', r2_output_swap), ('C17.R3', r3_prince_folder), ('C17.R4', r4_prince_tally),
             ('C17.R6', lambda c, r: c09.r2_pairing(c, r, quals=[PG + '_recursive_guesses'], entries=('prince_ling.py',), floor=4, skip_markov=True)),
             ('C17.R7', c01.r1_heap_order), ('C17.R8', c01.r4_prob_pt_coupling), ('C17.R9', lambda c, r: c02.r1_adoption_kernel(c, r)),
-            ('C17.R10', c04.r2_structural_recursion), ('C17.R11', _mask_insertion), ('C17.R12', c01.r6_loader_order)] + _loader_bundle() + []
+            ('C17.R10', c04.r2_structural_recursion), ('C17.R11', _mask_insertion), ('C17.R12', c01.r6_loader_order), ('C17.R13', r13_loaded_lists_unfiltered)] + _loader_bundle() + []
 
 
 META = {
